@@ -1345,7 +1345,7 @@ func hostnameFromHostPortBytes(hostPort []byte) []byte {
 }
 
 func isDomainOrSubdomainBytes(sub, parent []byte) bool {
-	if bytes.EqualFold(sub, parent) {
+	if asciiEqualFold(sub, parent) {
 		return true
 	}
 	if len(parent) == 0 {
@@ -1355,10 +1355,25 @@ func isDomainOrSubdomainBytes(sub, parent []byte) bool {
 	if len(sub) <= len(parent) || bytes.IndexByte(sub, ':') >= 0 || bytes.IndexByte(sub, '%') >= 0 {
 		return false
 	}
-	if !bytes.EqualFold(sub[len(sub)-len(parent):], parent) {
+	if !asciiEqualFold(sub[len(sub)-len(parent):], parent) {
 		return false
 	}
 	return sub[len(sub)-len(parent)-1] == '.'
+}
+
+// asciiEqualFold reports whether a and b are equal ignoring the case of ASCII
+// letters only. Unlike bytes.EqualFold it does not apply Unicode case folding,
+// so look-alike hosts such as "a\u017fk.com" are not equal to "ask.com".
+func asciiEqualFold(a, b []byte) bool {
+	if len(a) != len(b) {
+		return false
+	}
+	for i := range a {
+		if toLowerTable[a[i]] != toLowerTable[b[i]] {
+			return false
+		}
+	}
+	return true
 }
 
 func splitHostPortBytes(hostPort []byte) ([]byte, []byte) {
